@@ -197,7 +197,8 @@ def raw_delattr(eng, st, pos, kw, fx):
     name = eng.to_val(st, name)
     d = st.get("idict", a_of(obj))
     out = []
-    for s2, miss in eng.split(st, is_absent(z3.Select(d, s_of(name))), note="raw delete of a missing attribute"):
+    # (numbers, strings, None, class atoms have no instance attributes to delete)
+    for s2, miss in eng.split(st, z3.Or(z3.Not(is_ref(obj)), is_absent(z3.Select(d, s_of(name)))), note="raw delete of a missing attribute"):
         if miss:
             out.append(eng.exc(s2, "AttributeError", note="no such attribute"))
         else:
